@@ -1,4 +1,5 @@
-"""C12 DistributedLock: fencing tokens strictly increase across grants (per lock)."""
+"""C12 DistributedLock: fencing tokens strictly increase across all grants of one manager, in grant-time order
+(across lock names; a re-entrant acquire returning the holder's unchanged token is not a new grant)."""
 
 from __future__ import annotations
 
@@ -16,7 +17,7 @@ COMP = "DistributedLock"
 
 def gen_lock(rng: random.Random, tier: str) -> dict:
     lease = rng.choice([0.5, 1.0, 5.0])
-    nlocks = rng.choice([1, 1, 2, 3])
+    nlocks = rng.choice([1, 2, 2, 3, 3])
     nclients = rng.choice([2, 3, 4])
     locks = [f"L{i}" for i in range(nlocks)]
     clients = [f"c{i}" for i in range(nclients)]
@@ -62,21 +63,25 @@ def run_lock(case: dict) -> Result:
             return
         res.count("grants_checked")
         prev = last_token.get(g.lock_name)
+        prev_all = max(last_token.values(), default=None)  # manager-wide: highest token handed out so far, any lock name
         mine = my_tokens.setdefault((g.lock_name, g.holder), [])
         if mine and mine[-1] == g.fencing_token and prev == g.fencing_token:
             res.count("reentrant_grants")
             grants.append((now, g.lock_name, g.holder, g.fencing_token, "re-entrant:" + how))
             return
         grants.append((now, g.lock_name, g.holder, g.fencing_token, how))
-        if prev is not None and g.fencing_token <= prev:
-            key = how
+        if prev_all is not None and g.fencing_token <= prev_all:
+            other_name = prev is None or g.fencing_token > prev
+            key = how + ("/below-a-later-grant-of-another-lock-name" if other_name else "")
+            how = key
             if key not in flagged:
                 flagged.add(key)
                 res.add(
                     "token-monotonic",
                     COMP,
                     how,
-                    f"lock {g.lock_name}: grant to {g.holder} carries token {g.fencing_token}, an earlier grant carried {prev}",
+                    f"lock {g.lock_name}: grant to {g.holder} carries token {g.fencing_token}; an earlier grant of this manager carried {prev_all} "
+                    f"(highest earlier token for this lock name: {prev})",
                     {"grants": grants[-30:]},
                 )
         last_token[g.lock_name] = max(prev or 0, g.fencing_token)
